@@ -39,6 +39,29 @@ func (Engine) Info(prop string) core.Info {
 			ThoroughRuns: 80000,
 			WatchdogSec:  120,
 		}
+	case "C03":
+		return core.Info{
+			Level:           "exploration",
+			Rule:            "one plan = a real fbb.Session (either role, with or without outbound messages) against the reference peer in Byzantine mode: it speaks the real protocol so that deep states are reached, and damages its own output at one seeded layer: raw in-flight byte edits, handshake lines, proposal lines and fields (negative/huge/non-numeric sizes, hostile MIDs, F> without checksum), FS answers (offsets beyond the data, too many/few), frame header/block/EOT bytes, the LZHUF payload inside a valid frame (negative/zero/short/long declared size, final match overrunning the size, truncation, bit flips, sum-preserving pairs; CRC fixed or not), the message inside a valid LZHUF stream (negative/huge Body and File sizes, missing Mid, bad date, thousands of File headers), or pure garbage transcripts; then the remote stops talking and closes. Oracle: no panic, no process death, Exchange returns within 5 simulated minutes after the remote closed, the connection is closed, allocation <= 32 MiB + 512 x bytes received; CPU spins are caught by the wall-clock watchdog and confirmed in a fresh process. Non-trivial: at least one damaged emission/edit/hostile message in the plan. Distinct: distinct event-log hash.",
+			Real:            realCode,
+			Stub:            []string{"clock (testing/synctest)", "link (sim/pipe)", "remote station (ref/b2f in Byzantine mode / garbage source)", "mailbox handler (ref/mbox)"},
+			Assumptions:     []string{"a CPU spin is decided by a wall-clock watchdog (30 s for runs that take milliseconds) because a spinning goroutine never lets the fake clock advance", "allocation is measured with runtime.MemStats.TotalAlloc around the whole run, harness included; the bound is deliberately loose", "library runs on the Go 1.26.8 standard library"},
+			QuickRuns:       30000,
+			ThoroughRuns:    600000,
+			WatchdogSec:     30,
+			HangIsViolation: true,
+		}
+	case "C04":
+		return core.Info{
+			Level:        "fault_enumeration",
+			Rule:         "one plan = one scenario (arm peer: reference peer sends 1-2 messages to a real Session; arm two: two real Sessions, A sends 1-2 messages to B). A fault-free pilot records the sender's byte stream; an independent scanner locates each SOH..EOT range; then every damage pattern is executed as its own simulated run: at every offset of the range a +1 substitution, a ^0x80 substitution, a seeded substitution, a deletion and an insertion; 150 seeded sum-preserving pairs (+d at i, -d at j over the data bytes, every fifth inside the 6-byte CRC/size header) and up to 400 adjacent swaps (quick tier: thinned to 3000 per transfer). The altered stream is judged by the reference receiver (independent frame parser, announced compressed length, offset, independent LZHUF decoder with CRC-16 and size check); the Session must deliver iff allowed and then exactly the reference decoding. evaluations = executions; distinct = distinct event-log hashes of the faulty executions.",
+			Real:         realCode,
+			Stub:         []string{"clock (testing/synctest)", "link with in-flight edits (sim/pipe)", "sender in arm peer (ref/b2f)", "reference receiver (ref/b2f frame parser + independent LZHUF decoder)", "mailbox handlers (ref/mbox)"},
+			Assumptions:  []string{"alterations are enumerated for the first two transfers of a scenario", "library runs on the Go 1.26.8 standard library"},
+			QuickRuns:    128,
+			ThoroughRuns: 4000,
+			WatchdogSec:  600,
+		}
 	case "C16":
 		return core.Info{
 			Level:        "exploration",
@@ -62,6 +85,10 @@ func (Engine) Generate(prop, tier string, r *core.Rand, run int) any {
 		return genC05(tier, r)
 	case "C16":
 		return genC16(tier, r)
+	case "C03":
+		return genC03(tier, r)
+	case "C04":
+		return genC04(tier, r)
 	}
 	return nil
 }
@@ -74,6 +101,10 @@ func (Engine) Execute(t *testing.T, prop string, plan json.RawMessage, trace boo
 		return execC05(t, prop, plan, trace)
 	case "C16":
 		return execC16(t, prop, plan, trace)
+	case "C03":
+		return execC03(t, prop, plan, trace)
+	case "C04":
+		return execC04(t, prop, plan, trace)
 	}
 	var o core.Outcome
 	o.Violate(prop, "harness", "unknown-property", "engine fbbsim does not serve "+prop)
